@@ -146,7 +146,7 @@ def run(ctx: Ctx) -> dict:
         events_for(fx["b"], cc, rng, ops, True)
         n_model += 2
     # (C) random structure-conforming BBANs of the 22 countries
-    per = 120 if ctx.quick else 6000
+    per = 80 if ctx.quick else 6000
     rb = []
     for cc in NAT:
         row = table.get(cc)
@@ -192,6 +192,21 @@ def run(ctx: Ctx) -> dict:
             for v in range(10 ** (z - a)):
                 g = b[:a] + str(v).zfill(z - a) + b[z:]
                 ops.append({"op": "iban.new", "t": cps(iban_of(cc, g)), "vb": True})
+    # the same characters under ANOTHER country of equal BBAN length directly afterwards: each country's
+    # algorithm must be handed that country's fields (not what was cut from the same text a moment ago)
+    by_len = {}
+    for cc in sorted(by_cc):
+        by_len.setdefault(len(by_cc[cc][0]), []).append(cc)
+    for ln, ccs in sorted(by_len.items()):
+        others = [c for c, r in sorted(table.items()) if gen.row_classes(r) and len(r["cls"]) == ln]
+        for x in ccs:
+            for y in others:
+                if y == x:
+                    continue
+                for b in by_cc[x][:2 if ctx.quick else 10]:
+                    if gen.row_classes(table[y]) and all(c.isdigit() for c in b) and all(k in (110, 99) for k in table[y]["cls"]):
+                        ops.append({"op": "iban.new", "t": cps(iban_of(x, b)), "vb": True})
+                        ops.append({"op": "iban.new", "t": cps(iban_of(y, b)), "vb": True})
     # all other countries are unaffected by the flag
     others = [r for cc, r in sorted(table.items()) if cc not in NAT and cc != "DE" and gen.row_classes(r)]
     for row in others:
